@@ -3,7 +3,7 @@
    outstanding keep-alive request). T = timeout, I = interval (ms); the command line accepts every pair of
    positive whole seconds (GeneratedFacts.cli_positive_seconds), the theorems cover every Z. *)
 From Coq Require Import List NArith ZArith Bool Lia.
-From AnyTLS Require Import Generated Pool Heartbeat HeartbeatProofs TimedLegacy.
+From AnyTLS Require Import Generated Pool Heartbeat HeartbeatProofs HeartbeatSimProofs TimedLegacy.
 Import ListNotations.
 Open Scope Z_scope.
 
@@ -21,6 +21,15 @@ Theorem C14_no_false_close_trace : forall T evs,
   in_time T evs -> hb_closed (hb_run T hb_init evs) = None.
 Proof. exact no_false_close_trace. Qed.
 Print Assumptions C14_no_false_close_trace.
+
+(* the form with explicit interval and delays, about the very function the correspondence check executes
+   (hb_sim: ticks at 0, I, 2I, ..; the k-th request answered script[k] ms later; observation until H): if every request
+   sent within the horizon is answered after a delay in [0, T), the session is never closed -- every I, every T *)
+Theorem C14_no_false_close_sim : forall I T H script,
+  (forall k, Z.of_nat k * I <= H -> exists d, nth_error script k = Some (Some d) /\ 0 <= d < T) ->
+  hb_closed (hb_sim I T H script) = None.
+Proof. exact sim_no_false_close. Qed.
+Print Assumptions C14_no_false_close_sim.
 
 (* a silent peer: st0 is the monitor right after the peer's last answer at instant a (or at session start, a = 0):
    not closed, nothing outstanding (see C14_after_answer). Afterwards only ticks happen; the interval timer fires
@@ -60,6 +69,12 @@ Theorem C14_refuted_pinned_rule :
    hb_closed (hb_run 40000 hb_init w_T_gt_I) = None).
 Proof. split; [exact C14_refuted_timeout_below_interval|exact C14_refuted_interval_not_dividing_timeout]. Qed.
 Print Assumptions C14_refuted_pinned_rule.
+
+(* the exact class of the pinned rule (D9): with ticks at 0, I, 2I, .. and ties between an answer and a tick resolved
+   adversarially, it keeps every session whose peer answers in time open  <->  the interval divides the timeout *)
+Theorem C14_pinned_rule_sound_class : forall I T, 0 < I -> 0 < T -> (legacy_sound I T <-> T mod I = 0).
+Proof. exact C14_legacy_sound_class. Qed.
+Print Assumptions C14_pinned_rule_sound_class.
 
 (* non-vacuity: I = 30 s, T = 10 s (timeout < interval); the peer answers after 9.999 s each time: the trace is
    time-ordered, satisfies peer_in_time, and stays open; when the peer falls silent after its answer at
